@@ -65,6 +65,59 @@ func fatDoc() map[string]any {
 	return doc
 }
 
+// extFatDoc: specification extensions (`x-...`) are one more map in every OpenAPI object. Schemas, parameters and
+// operations carry the extensions goag reads next to the spellings other generators use for the same things and a
+// few unrelated ones: whatever the generator does with the ones it does not know must not depend on the order it
+// meets them in.
+func extFatDoc() map[string]any {
+	exts := func(goType, timeFmt string) map[string]any {
+		m := map[string]any{"x-go-name": "Renamed", "x-order": 3, "x-nullable": false, "x-omitempty": true, "x-go-type-skip-optional-pointer": true,
+			"x-oapi-codegen-extra-tags": map[string]any{"validate": "required"}, "x-deprecated-reason": "none", "x-enum-varnames": []any{"A", "B"}}
+		if goType != "" {
+			m["x-goag-go-type"], m["x-go-type"], m["x-goag-type"], m["x-go-custom-type"] = goType, goType+"Number", goType+"Alt", goType+"Custom"
+		}
+		if timeFmt != "" {
+			m["x-goag-go-time-format"], m["x-go-time-format"], m["x-time-format"], m["x-goag-time-format"] = timeFmt, "time.Kitchen", "time.ANSIC", "time.RFC850"
+		}
+		return m
+	}
+	with := func(s map[string]any, e map[string]any) map[string]any {
+		for k, v := range e {
+			s[k] = v
+		}
+		return s
+	}
+	str := func() map[string]any { return map[string]any{"type": "string"} }
+	dt := func() map[string]any { return map[string]any{"type": "string", "format": "date-time"} }
+	return map[string]any{
+		"openapi": "3.0.3", "info": map[string]any{"title": "ext", "version": "1"},
+		"paths": map[string]any{"/items/{id}": with(map[string]any{
+			"get": with(map[string]any{
+				"operationId": "getItem",
+				"parameters": []any{
+					with(map[string]any{"name": "id", "in": "path", "required": true, "schema": with(str(), exts("ItemID", ""))}, exts("", "")),
+					map[string]any{"name": "page", "in": "query", "schema": with(map[string]any{"type": "integer"}, exts("Page", ""))},
+					map[string]any{"name": "since", "in": "query", "schema": with(dt(), exts("", "time.RFC1123"))},
+					map[string]any{"name": "X-Trace", "in": "header", "schema": with(str(), exts("TraceID", ""))},
+				},
+				"responses": map[string]any{"200": map[string]any{"description": "ok",
+					"headers": map[string]any{"X-When": map[string]any{"schema": with(dt(), exts("", "time.RFC822"))}},
+					"content": map[string]any{"application/json": map[string]any{"schema": map[string]any{"$ref": "#/components/schemas/Item"}}}}},
+			}, exts("", "")),
+		}, exts("", ""))},
+		"components": map[string]any{"schemas": map[string]any{
+			"Item": with(map[string]any{"type": "object", "required": []any{"id"}, "properties": map[string]any{
+				"id":      with(str(), exts("ItemID", "")),
+				"created": with(dt(), exts("", "time.RFC3339")),
+				"owner":   with(str(), exts("Owner", "")),
+				"tags":    map[string]any{"type": "array", "items": with(str(), exts("Tag", ""))},
+			}}, exts("", "")),
+			"Stamp": with(dt(), exts("", "time.RFC1123Z")),
+			"Code":  with(str(), exts("Code", "")),
+		}},
+	}
+}
+
 // casePairDoc: keys that differ only in case (legitimate, distinct Go names) in every map the generator orders:
 // an ordering that treats them as equal leaves their relative order to the map iteration.
 func casePairDoc() map[string]any {
@@ -110,6 +163,8 @@ func checkC12(c *core.Check) {
 	}
 	var specs []spec
 	fat, _ := json.MarshalIndent(fatDoc(), "", " ")
+	extFat, _ := json.MarshalIndent(extFatDoc(), "", " ")
+	specs = append(specs, spec{"ext-fat", core.GenJob{Spec: string(extFat), SpecName: "openapi.yaml", Package: "gen", SpecHandler: "openapi.yaml", Client: true, APIHandler: true, DoNotEdit: true}})
 	specs = append(specs, spec{"map-fat", core.GenJob{Spec: string(fat), SpecName: "openapi.yaml", Package: "gen", SpecHandler: "openapi.yaml", Client: true, APIHandler: true, DoNotEdit: true, Config: "cors:\n  enable: true\n"}})
 	cp, _ := json.MarshalIndent(casePairDoc(), "", " ")
 	specs = append(specs, spec{"case-pairs", core.GenJob{Spec: string(cp), SpecName: "openapi.yaml", Package: "gen", SpecHandler: "openapi.yaml", Client: true, APIHandler: true, DoNotEdit: true}})
